@@ -172,8 +172,8 @@ func (c *shardedMap) ExpireAll(ctx context.Context) {
 		b := &c.hashedBuckets[i]
 		b.Lock()
 		for h, v := range b.data {
-			v.E = startTS
-			b.data[h] = v
+			// Entry is replaced, readers that hold the old one after unlocking must not see it change.
+			b.data[h] = &TraitEntry{K: v.K, V: v.V, E: startTS, C: atomic.LoadInt64(&v.C)}
 			cnt++
 		}
 		b.Unlock()
